@@ -229,7 +229,7 @@ class ClusterSuite(Suite):
     prelude = 'From Sup Require Import Node Cluster ClusterSpec.\nOpen Scope Z_scope.'
     case_type = 'ccase'
     evals = {'mismatches': 'cmismatches'}
-    shard_size = 20
+    shard_size = 10      # a shard of long schedules costs coqc ~1 GB: 16 in parallel must fit in memory
 
     def __init__(self, evals=None, quick=(150, 120), thorough=(400, 300), quiet_rounds=0, convergent_cfg=False):
         self._clock = False
